@@ -53,6 +53,7 @@ type EngStats struct {
 	Decisions     int64
 	Forks         int64
 	RefineQueries int64
+	RopeHits      int64
 	Paths         int64
 	Funcs         map[string]int
 	Intrinsics    map[string]int
